@@ -319,32 +319,49 @@ pub trait InK<'a>: ValueInput<'a, Span = <Self as InK<'a>>::S, Token = <Self as 
     fn to_slice<C: Cfg<'a, Self>>(_p: BP<'a, Self, C>) -> BP<'a, Self, C> {
         unsupported("to_slice")
     }
+    fn slice_with<C: Cfg<'a, Self>>(_p: BP<'a, Self, C>) -> BP<'a, Self, C> {
+        unsupported("slice_with")
+    }
 }
 
 impl<'a> InK<'a> for &'a str {
     type T = char;
     type S = SimpleSpan<usize>;
     fn to_slice<C: Cfg<'a, Self>>(p: BP<'a, Self, C>) -> BP<'a, Self, C> {
-        p.to_slice().map(|s: &str| Val::Sl(buf_offset(s.as_ptr() as usize, s.len()), s.chars().map(crate::interp::TokK::to_char).collect())).boxed()
+        p.to_slice().map(str_slice_val).boxed()
     }
+    fn slice_with<C: Cfg<'a, Self>>(p: BP<'a, Self, C>) -> BP<'a, Self, C> {
+        p.map_with(|_, e| str_slice_val(e.slice())).boxed()
+    }
+}
+pub fn str_slice_val(s: &str) -> Val {
+    Val::Sl(buf_offset(s.as_ptr() as usize, s.len()), s.chars().map(TokK::to_char).collect())
+}
+pub fn chars_slice_val(s: &[char]) -> Val {
+    let o = buf_offset(s.as_ptr() as usize, s.len() * 4);
+    Val::Sl(if o == usize::MAX { o } else { o / 4 }, s.iter().collect())
+}
+pub fn u8_slice_val(s: &[u8]) -> Val {
+    Val::Sl(buf_offset(s.as_ptr() as usize, s.len()), s.iter().map(|b| *b as char).collect())
 }
 impl<'a> InK<'a> for &'a [char] {
     type T = char;
     type S = SimpleSpan<usize>;
     fn to_slice<C: Cfg<'a, Self>>(p: BP<'a, Self, C>) -> BP<'a, Self, C> {
-        p.to_slice()
-            .map(|s: &[char]| {
-                let o = buf_offset(s.as_ptr() as usize, s.len() * 4);
-                Val::Sl(if o == usize::MAX { o } else { o / 4 }, s.iter().collect())
-            })
-            .boxed()
+        p.to_slice().map(chars_slice_val).boxed()
+    }
+    fn slice_with<C: Cfg<'a, Self>>(p: BP<'a, Self, C>) -> BP<'a, Self, C> {
+        p.map_with(|_, e| chars_slice_val(e.slice())).boxed()
     }
 }
 impl<'a> InK<'a> for &'a [u8] {
     type T = u8;
     type S = SimpleSpan<usize>;
     fn to_slice<C: Cfg<'a, Self>>(p: BP<'a, Self, C>) -> BP<'a, Self, C> {
-        p.to_slice().map(|s: &[u8]| Val::Sl(buf_offset(s.as_ptr() as usize, s.len()), s.iter().map(|b| *b as char).collect())).boxed()
+        p.to_slice().map(u8_slice_val).boxed()
+    }
+    fn slice_with<C: Cfg<'a, Self>>(p: BP<'a, Self, C>) -> BP<'a, Self, C> {
+        p.map_with(|_, e| u8_slice_val(e.slice())).boxed()
     }
 }
 
@@ -509,6 +526,7 @@ where
     match sink {
         Sink::Vec => p.collect::<Vec<Val>>().map(Val::L).boxed(),
         Sink::Count => p.count().map(Val::N).boxed(),
+        Sink::Str => unsupported("Sink::Str is applied by build_rep/build_sep"),
         Sink::Bare => Parser::map(p, |()| Val::U).boxed(),
         Sink::Exactly(0) => p.collect_exactly::<[Val; 0]>().map(|a| Val::L(a.into())).boxed(),
         Sink::Exactly(1) => p.collect_exactly::<[Val; 1]>().map(|a| Val::L(a.into())).boxed(),
@@ -537,53 +555,88 @@ where
     }
 }
 
+/// Apply repetition bounds in the three ways the API offers (builder methods, `exactly`,
+/// `configure`), then hand the iterable parser to `$k`.
+macro_rules! with_bounds {
+    (nocfg $p:expr, $bd:expr, |$q:ident| $k:expr) => {{
+        let (min, max) = ($bd.min as usize, $bd.max.map(|m| m as usize));
+        if $bd.cfg {
+            unsupported("configure() on separated_by (only Repeated and Just are configurable)")
+        } else if $bd.exactly {
+            let $q = $p.exactly(min);
+            $k
+        } else {
+            let mut $q = $p;
+            if min > 0 {
+                $q = $q.at_least(min);
+            }
+            if let Some(m) = max {
+                $q = $q.at_most(m);
+            }
+            $k
+        }
+    }};
+    ($p:expr, $bd:expr, |$q:ident| $k:expr) => {{
+        let (min, max) = ($bd.min as usize, $bd.max.map(|m| m as usize));
+        if $bd.cfg {
+            let $q = $p.configure(move |cfg, _ctx| {
+                let cfg = cfg.at_least(min);
+                match max {
+                    Some(m) => cfg.at_most(m),
+                    None => cfg,
+                }
+            });
+            $k
+        } else if $bd.exactly {
+            let $q = $p.exactly(min);
+            $k
+        } else {
+            let mut $q = $p;
+            if min > 0 {
+                $q = $q.at_least(min);
+            }
+            if let Some(m) = max {
+                $q = $q.at_most(m);
+            }
+            $k
+        }
+    }};
+}
+
+fn str_val(s: String) -> Val {
+    Val::L(s.chars().map(Val::T).collect())
+}
+
 fn build_rep<'a, I: InK<'a>, C: Cfg<'a, I>>(item: &G, bd: &Bounds, sink: &Sink, pr: Probes) -> BP<'a, I, C> {
     let it = build::<I, C>(item, pr);
-    let (min, max) = (bd.min as usize, bd.max.map(|m| m as usize));
-    if bd.cfg {
-        let p = it.repeated().configure(move |cfg, _ctx| {
-            let cfg = cfg.at_least(min);
-            match max {
-                Some(m) => cfg.at_most(m),
-                None => cfg,
-            }
-        });
-        apply_sink::<I, C, _>(p, sink, pr)
-    } else if bd.exactly {
-        apply_sink::<I, C, _>(it.repeated().exactly(min), sink, pr)
-    } else {
-        let mut p = it.repeated();
-        if min > 0 {
-            p = p.at_least(min);
-        }
-        if let Some(m) = max {
-            p = p.at_most(m);
-        }
-        apply_sink::<I, C, _>(p, sink, pr)
+    if *sink == Sink::Str {
+        let it = it.map(|v| ast::char_of(&v));
+        return with_bounds!(it.repeated(), bd, |q| q.collect::<String>().map(str_val).boxed());
     }
+    with_bounds!(it.repeated(), bd, |q| apply_sink::<I, C, _>(q, sink, pr))
 }
 
 #[allow(clippy::too_many_arguments)]
 fn build_sep<'a, I: InK<'a>, C: Cfg<'a, I>>(item: &G, sep: &G, bd: &Bounds, lead: bool, trail: bool, sink: &Sink, pr: Probes) -> BP<'a, I, C> {
-    let mut p = build::<I, C>(item, pr).separated_by(build::<I, C>(sep, pr));
-    let (min, max) = (bd.min as usize, bd.max.map(|m| m as usize));
-    if bd.exactly {
-        p = p.exactly(min);
-    } else {
-        if min > 0 {
-            p = p.at_least(min);
-        }
-        if let Some(m) = max {
-            p = p.at_most(m);
-        }
+    macro_rules! flags {
+        ($p:expr) => {{
+            let mut p = $p;
+            if lead {
+                p = p.allow_leading();
+            }
+            if trail {
+                p = p.allow_trailing();
+            }
+            p
+        }};
     }
-    if lead {
-        p = p.allow_leading();
+    let it = build::<I, C>(item, pr);
+    let sp = build::<I, C>(sep, pr);
+    if *sink == Sink::Str {
+        let it = it.map(|v| ast::char_of(&v));
+        return with_bounds!(nocfg flags!(it.separated_by(sp)), bd, |q| q.collect::<String>().map(str_val).boxed());
     }
-    if trail {
-        p = p.allow_trailing();
-    }
-    apply_sink::<I, C, _>(p, sink, pr)
+    with_bounds!(nocfg flags!(it.separated_by(sp)), bd, |q| apply_sink::<I, C, _>(q, sink, pr))
 }
 
 fn build0<'a, I: InK<'a>, C: Cfg<'a, I>>(g: &G, pr: Probes) -> BP<'a, I, C> {
@@ -668,6 +721,14 @@ fn build0<'a, I: InK<'a>, C: Cfg<'a, I>>(g: &G, pr: Probes) -> BP<'a, I, C> {
         MapErr(a) => build::<I, C>(a, pr).map_err(|e: C::Err| e.tag()).boxed(),
         Memo(a) => build::<I, C>(a, pr).memoized().boxed(),
         WithState(a) => C::with_state(build::<I, C>(a, pr)),
+        Snd(a) => build::<I, C>(a, pr).map(ast::snd_of).boxed(),
+        Fst(a) => build::<I, C>(a, pr).map(ast::fst_of).boxed(),
+        Mid(a) => build::<I, C>(a, pr).map(ast::mid_of).boxed(),
+        MapUnit(a) => build::<I, C>(a, pr).map(|_| Val::U).boxed(),
+        MapZ(a) => build::<I, C>(a, pr).map(|_| Val::Z).boxed(),
+        SliceWith(a) => I::slice_with::<C>(build::<I, C>(a, pr)),
+        SpanWith(a) => build::<I, C>(a, pr).map_with(|_, e| { let (a, b) = e.span().pair(); Val::Sp(a, b) }).boxed(),
+        Lazy(a) => build::<I, C>(a, pr).lazy().boxed(),
         Rep(item, bd, sink) => build_rep::<I, C>(item, bd, sink, pr),
         SepBy(item, sep, bd, l, t, sink) => build_sep::<I, C>(item, sep, bd, *l, *t, sink, pr),
         Then(a, c) => build::<I, C>(a, pr).then(build::<I, C>(c, pr)).map(|(a, c)| Val::P(bx(a), bx(c))).boxed(),
